@@ -504,6 +504,7 @@ def main_check(pid, argv=None):
 
     # cross-process determinism (fresh interpreter, other PYTHONHASHSEED)
     xproc = 0
+    xproc_bad = False
     if exit_code == 0 and total["digests"] and getattr(mod, "XPROC_RERUNS", 6):
         idxs = sorted(total["digests"])[: getattr(mod, "XPROC_RERUNS", 6)]
         try:
@@ -511,7 +512,10 @@ def main_check(pid, argv=None):
             xproc = len(idxs)
             bad = [i for i in idxs if other.get(i) != total["digests"][i]]
             if bad:
-                print(f"HARNESS-ERROR cross-process determinism mismatch on run indices {bad}")
+                print(f"HARNESS-ERROR cross-process determinism mismatch on run indices {bad}"
+                      " (a violation that still reproduces in a fresh process is reported below)")
+                xproc_bad = True
+                mismatch_only = True
                 exit_code = 2
         except Exception as e:
             print(f"HARNESS-ERROR cross-process determinism run failed: {e}")
@@ -546,7 +550,7 @@ def main_check(pid, argv=None):
         # one report per distinct clause, first occurrence (lowest index) first
         unknown.sort(key=lambda rv: (rv[0]["index"]))
         seen = set()
-        leaky = bool(total["mismatches"])
+        leaky = bool(total["mismatches"]) or xproc_bad
         if leaky:
             # process-global state of the code under test leaks between runs of one process: what a run showed may depend on
             # its predecessors. Screen the recorded scenarios in fresh processes and report the first that reproduces there.
